@@ -400,6 +400,18 @@ func neighbours(ls [][2]string) []neighbour {
 			out = append(out, neighbour{"label-folded-into-previous-value", y})
 		}
 	}
+	// the set plus a label with an empty value, and the set with one value emptied: different label sets
+	for _, extra := range []string{"zz_empty", "a0"} {
+		if !has(ls, extra, -1) {
+			out = append(out, neighbour{"empty-valued-label-added", append(cp(), [2]string{extra, ""})})
+			break
+		}
+	}
+	if len(ls) >= 2 && ls[0][1] != "" {
+		x := cp()
+		x[0][1] = ""
+		out = append(out, neighbour{"value-emptied", x})
+	}
 	return out
 }
 
